@@ -162,6 +162,42 @@ example : let s := (runSched ⟨true, false, 2⟩ (init [.play [101], .close])
     (wants s (.player 0) = some .mlock ∧ (s.players[0]?).map (·.lk) = some (some (.player 0))) := by
   decide
 
+/-- **C17.5b manager_lock_never_blocks** (progress) — whoever holds the manager lock
+(`AudioIO.lock`) has an enabled pending operation: the lock is only held across operations that
+cannot block, so `play`, `close` and `thread_finished` never wait for it for ever. -/
+theorem manager_lock_never_blocks {cfg : Cfg} {script : List Cmd} {s : State}
+    (hr : Reach cfg script s) (t : Tid) (ht : s.mlock = some t) : enabled cfg s t = true :=
+  mlock_holder_enabled' hr t ht
+
+/-! ### liveness of `close` — PENDING (carried by the tie on every explored schedule)
+
+Proved so far, for ALL schedules: no backend/assertion failure can abort `close`
+(`close_assertion_holds`, `backend_protocol`), no deadlock consists of locks only (`lock_order`,
+`manager_lock_never_blocks`), and the code as it is DOES deadlock through `go.wait()`
+(`deadlock_pause_close`, `deadlock_pause_resume_close` below).  Not yet proved in Lean: -/
+
+-- PENDING
+/-- script without `pause` calls -/
+def NoPause (script : List Cmd) : Prop := ∀ i, Cmd.ctl .pause i ∉ script
+
+-- PENDING: every maximal run of a script without `pause` ends with the script completed (every
+-- `close` returned) and all players finished — both variants of `stop()`.
+def close_returns_no_pause : Prop :=
+  ∀ (cfg : Cfg) (script : List Cmd) (s : State), NoPause script → Reach cfg script s →
+    terminal cfg s = true → allDone s = true
+
+-- PENDING: with the proposed fix and `wait=False`, `close` returns whatever was paused (scripts
+-- without `join` calls; a `join` of a paused player blocks by the script's own doing).
+def close_returns_fixed : Prop :=
+  ∀ (cfg : Cfg) (script : List Cmd) (s : State), cfg.fixed = true → cfg.wait = false →
+    (∀ i, Cmd.join i ∉ script) → Reach cfg script s → terminal cfg s = true → s.mpc = .done
+
+-- PENDING: every run is finite (so a maximal run exists and weak fairness is implied): the number
+-- of steps from the initial state is bounded by a function of the script.
+def steps_bounded : Prop :=
+  ∀ (cfg : Cfg) (script : List Cmd), ∃ B : Nat, ∀ (sched : List Tid),
+    (runSched cfg (init script) sched).2 = [] → sched.length ≤ B
+
 /-! ### the deadlock of the code as it is (D10) -/
 
 def mkSched (l : List Nat) : List Tid := l.map fun n => if n = 0 then Tid.main else Tid.player (n - 1)
